@@ -2,20 +2,30 @@
 
 package props
 
-import "github.com/initia-labs/OPinit/x/verifmap"
+import (
+	"github.com/initia-labs/OPinit/x/verifmap"
+	connectmap "github.com/skip-mev/connect/v2/verifmapx"
+)
 
-// Bound only in the overlay build: the harness owns the order of every instrumented map range.
+// Bound only in the overlay build: the harness owns the order of every instrumented map range, in
+// the repository's packages and in the instrumented connect packages (each module has its own copy
+// of the tiny verifmap package; both are bound to one recorder).
 func init() {
 	c18MapBegin = func(choose func(site string, n int) []int) func() [][2]any {
-		s := &verifmap.Session{Choose: choose}
-		verifmap.Bind(s)
+		var log [][2]any
+		rec := func(site string, n int) []int {
+			log = append(log, [2]any{site, n})
+			if choose == nil {
+				return nil
+			}
+			return choose(site, n)
+		}
+		verifmap.Bind(&verifmap.Session{Choose: rec})
+		connectmap.Bind(&connectmap.Session{Choose: rec})
 		return func() [][2]any {
 			verifmap.Bind(nil)
-			var out [][2]any
-			for _, l := range s.Log {
-				out = append(out, [2]any{l.Name, l.N})
-			}
-			return out
+			connectmap.Bind(nil)
+			return log
 		}
 	}
 }
